@@ -57,6 +57,7 @@ type Found struct {
 
 type Summary struct {
 	Runs         int            `json:"runs"`
+	Evals        int64          `json:"evals"`
 	Steps        int64          `json:"steps"`
 	SimNanos     int64          `json:"sim_nanos"`
 	Probes       map[string]int `json:"probes"`
@@ -619,8 +620,13 @@ func main() {
 	if len(samples) == 0 {
 		samples = append(samples, "no non-trivial run in this batch")
 	}
+	evaluations := int64(total.Runs)
+	if total.Evals > 0 {
+		evaluations = total.Evals // fault points evaluated inside the runs (each a complete halted search + follow-ups)
+	}
 	cov := map[string]any{
-		"evaluations":         total.Runs,
+		"evaluations":         evaluations,
+		"runs":                total.Runs,
 		"distinct_nontrivial": len(nontriv),
 		"rule":                spec.Rule,
 		"samples":             samples,
@@ -659,6 +665,7 @@ func main() {
 
 func merge(t, s *Summary, nontriv map[uint64]bool) {
 	t.Runs += s.Runs
+	t.Evals += s.Evals
 	t.Steps += s.Steps
 	t.SimNanos += s.SimNanos
 	for k, v := range s.Probes {
